@@ -675,6 +675,14 @@ Op Gen::polygonOp(int fn, int maxCells) {
         }
         op.ints.push_back(cap);
     }
+    if (fn == FN_polygonToCells && r.chance(0.07)) {
+        // the caller's output array is documented as zero-filled; an array that is not (reused without clearing)
+        // fills the function's open-addressing table and drives it onto its E_FAILED exit with all three scratch
+        // arrays live — an error path no well-formed call reaches (ints[2]: 1 = every slot occupied, 2 = every
+        // other slot occupied)
+        op.ints.push_back(r.chance(0.6) ? 1 : 2);
+        op.tag += "+dirty-out";
+    }
     return op;
 }
 
